@@ -176,11 +176,23 @@ pub fn parse_files(
     // TODO: This could be moved to the lifting phase.
     match &mut result {
         ParseResult::Program(program_archive, reports) => {
-            if program_archive.main_expression().is_anonymous_component() {
+            // The main component is not desugared, and it is not analyzed if it contains an
+            // anonymous component or a tuple (as the instantiation or in one of the arguments).
+            if program_archive.main_expression().contains_anonymous_component(None) {
                 reports.push(
                     errors::AnonymousComponentError::new(
                         Some(program_archive.main_expression().meta()),
                         "The main component cannot contain an anonymous call.",
+                        Some("Main component defined here."),
+                    )
+                    .into_report(),
+                );
+            }
+            if program_archive.main_expression().contains_tuple(None) {
+                reports.push(
+                    errors::TupleError::new(
+                        Some(program_archive.main_expression().meta()),
+                        "The main component cannot contain a tuple.",
                         Some("Main component defined here."),
                     )
                     .into_report(),
